@@ -21,8 +21,8 @@ import HexVerif.X.Sem
   The compiler model `Xcmp.compile` (lean/HexVerif/Xcmp/*) is tied to xcmp.hpp on every run by
   runner/c01model.py (byte-identical output of every stage).  Proof architecture:
 
-      X.Sem  --(stages 2,3,4)-->  Am on the lowered directives  --(peephole)-->  Am on the final
-      directives  --(stage 1: `Am_refines_Isa`)-->  Isa on the bytes.
+      X.Sem  --(stages 2,3,4)-->  IAm on the lowered directives  --(peephole: `peep_run`)-->  IAm on
+      the final directives  --(stage 1: `IAm_refines_Isa`, `Am_refines_Isa`)-->  Isa on the bytes.
 
   Discharged here:
   * stage (1) `Am_refines_Isa`, for EVERY directive list the assembler accepts (so in particular
@@ -40,12 +40,16 @@ import HexVerif.X.Sem
   * `C01_v1_partial`: the FULL statement above, end to end (source run to ISA run on the bytes), for
     the class `v1Ok P` (decidable): one procedure `main` without formals, `var` declarations only,
     body in the stage-3 fragment, and the compilation passes the reflective check `v1Check`
-    (lowered program has the expected shape and is left unchanged by the peephole pass, `PCtx.WFS`
-    holds of the context computed from the compiler's symbol table and the assembler's layout,
-    the stack lies above the image).  The check is computed, not assumed: `Lemmas/XcmpV1.lean`
-    proves it sound, and runner/c01model.py evaluates it on every V1 program of its corpus.
-  Open: the peephole pass as a simulation (so that `optimised = lowered` can go), stage (4) (user
-  calls), and replacing the reflective check by a proof that it always succeeds.
+    (lowered program has the expected shape, `PCtx.WFS` holds of the context computed from the
+    compiler's symbol table and the assembler's layout, the stack lies above the image).  The
+    check is computed, not assumed: `Lemmas/XcmpV1.lean` proves it sound, and runner/c01model.py
+    evaluates it on every V1 program of its corpus (all pass).
+  * the peephole pass (`OptimiseDirectives`) for ARBITRARY directive lists with unique label
+    names: `peep_run` (Lemmas/XcmpPeep.lean) - every terminating `IAm` run on the list before the
+    pass, laid out through the list after it, is a run on the list after it; deleted
+    instructions are stutter steps.  `C01_v1_partial` goes through it.
+  Open: stage (4) (user calls), and replacing the reflective check by a proof that it always
+  succeeds.
 -/
 namespace Hex.C01
 open Hex Hex.Isa
@@ -187,6 +191,19 @@ example : ∃ a' b' mem',
     (Nat.zero_le _) (Nat.le_refl _) (fun e he => by simp at he)
   rw [C01s.Witness.exec_ok] at h
   exact h
+
+/-! ### The peephole pass -/
+
+/-- **`C01_peephole`.**  For any directive list `ds` with unique label names and any environment
+    `env'` (layout, code map) of `peephole ds`: a run of `IAm` on `ds` - each directive at the
+    address of its image in `env'` - from index 0 to the exit system call is a run on
+    `peephole ds` with the same I/O and exit code. -/
+theorem C01_peephole (ds : List Asm.Dir) (env' : IAm.Env) (henv : env'.ds = Xcmp.peephole ds)
+    (hnd : (C01s.labelNames ds).Nodup) (mem : Mem) (io0 : IOSt) (c : IAm.Cfg) (io : IOSt) (code : Word)
+    (hsteps : IAm.Steps (C01s.fakeEnv env' ds (C01s.peepSt ds)) ⟨0, 0, 0, mem⟩ io0 c io)
+    (hexit : IAm.Exit (C01s.fakeEnv env' ds (C01s.peepSt ds)) c io code) :
+    ∃ c', IAm.Steps env' ⟨0, 0, 0, mem⟩ io0 c' io ∧ IAm.Exit env' c' io code :=
+  C01s.peep_run (by rw [henv]; exact C01s.peephole_peep ds) hnd mem io0 c io code hsteps hexit
 
 /-! ### Whole programs: the class V1 -/
 
